@@ -230,7 +230,7 @@ theorem switchStage_spec (s : St ρ) (dif occ0 : Int) :
     (switchStage s dif occ0).cur.clk = lshift s.cur.clk (-dif) ∧
     (switchStage s dif occ0).cur.step = lshift s.cur.step (switchShift s dif) ∧
     (switchStage s dif occ0).cur.ss = lshift s.cur.ss (switchShift s dif) := by
-  unfold switchStage
+  unfold switchStage switchPrep
   dsimp only
   generalize hs2 : (if dif > 0 then ({ s with inc := decide (dif > 0), fo := s.cur, cur := { s.cur with sn := s.cur.sn + dif } } : St ρ)
       else { s with inc := decide (dif > 0), fo := s.cur, cur := { s.cur with sn := s.cur.sn + dif }, sw := s.cur.sn + dif }) = s2
@@ -264,7 +264,7 @@ theorem switchStage_spec (s : St ρ) (dif occ0 : Int) :
 /-- the state a chunk interpolates from: after the snap and after the stage switch, if any -/
 def chunkBase (cfg : Cfg ρ) (olen0 : Nat) (l : LoopSt ρ) : St ρ :=
   let a := chunkStart cfg l.st (olen0 - l.od0)
-  if doesSwitch a.1 then switchStage a.1 (stageDif a.1) (alignOcc l.occ a.1.cur.sn (stageDif a.1)) else a.1
+  if doesSwitch a.1 then switchStage a.1 (stageDif a.1) (switchOcc a.1 (stageDif a.1) l.occ) else a.1
 
 /-- one chunk, as a transformer of the clock / slew fields.  `b` is the state after the snap and the stage switch;
     the chunk delivers `od` frames, `step` advances `kc` times (`kc = od` unless the C assertion
@@ -285,7 +285,7 @@ theorem chunk_spec (cfg : Cfg ρ) (olen0 : Nat) (l : LoopSt ρ) :
   generalize hK : kernels b a.2 (chunkMn l (stageDif a.1))
     (chunkMx l (stageDif a.1) (decide (a.1.cur.sn + stageDif a.1 < a.1.ns))) = K at hk
   have hr : r = { chunkFinish l (doesSwitch a.1) (doesSwitch a.1 && negLeftShift a.1 (stageDif a.1)) K with
-      occ := if doesSwitch a.1 then alignOcc l.occ a.1.cur.sn (stageDif a.1) else l.occ } := by
+      occ := if doesSwitch a.1 then switchOcc a.1 (stageDif a.1) l.occ else l.occ } := by
     show (chunk cfg olen0 l).1 = _
     unfold chunk
     dsimp only
